@@ -1,5 +1,5 @@
 import Driver.Codec
-import PanderaModel.Props.C11
+import PanderaModel.Parse
 import PanderaModel.Generated.ScopeMap
 open Lean Pandera
 
